@@ -147,7 +147,15 @@ func (s *DeadCodeServiceImpl) analyzeFile(ctx context.Context, filePath string, 
 	totalFindings := 0
 	affectedFunctions := 0
 
-	for functionName, cfg := range cfgs {
+	// Visit the functions in name order so that the report order is stable
+	functionNames := make([]string, 0, len(cfgs))
+	for functionName := range cfgs {
+		functionNames = append(functionNames, functionName)
+	}
+	sort.Strings(functionNames)
+
+	for _, functionName := range functionNames {
+		cfg := cfgs[functionName]
 		// Skip the main module CFG for now, focus on functions
 		if functionName == "__main__" {
 			continue
